@@ -28,27 +28,42 @@ Print Assumptions C09_code_tie_lazy.
    for EVERY sixteen tokens: OK with the indices of the one language that recognises them all (and its
    registry position through lang_out unless that is NULL), ERR_LANG with nothing written when none
    does, ERR_MULT_LANG as soon as a second one does - exactly LangDefs.phrase_decode *)
-Theorem C09_code_tie_auto : forall sgn ext ws io0 lo lo0 fuel,
-  (forall li L w, nth_error langs li = Some L -> ext (Z.of_nat li) (zs w) = enc (lang_search sgn L w)) ->
-  length ws = 16%nat -> length io0 = 16%nat -> (18 <= fuel)%nat ->
-  Res io0 lo lo0 (phrase_decode sgn langs ws) (CFuns.polyseed_phrase_decode fuel ext (map zs ws) io0 lo lo0).
-Proof. exact tie_phrase_decode_langs. Qed.
+Theorem C09_code_tie_auto :
+  forall (sgn : bool) (ext : Z -> list Z -> Z) (OKW : bytes -> Prop) (ws : list bytes) 
+           (io0 : list Z) (lo lo0 : Z) (fuel : nat),
+         (forall (li : nat) (L : lang) (w : bytes),
+          OKW w -> nth_error langs li = Some L -> ext (Z.of_nat li) (zs w) = enc (lang_search sgn L w)) ->
+         Forall OKW ws ->
+         Datatypes.length ws = 16%nat ->
+         Datatypes.length io0 = 16%nat ->
+         (18 <= fuel)%nat ->
+         Res io0 lo lo0 (phrase_decode sgn langs ws)
+           (CFuns.polyseed_phrase_decode fuel ext (map zs ws) io0 lo lo0).
+Proof. exact @tie_phrase_decode_langs. Qed.
 Print Assumptions C09_code_tie_auto.
 
-Theorem C09_code_tie_explicit : forall sgn ext li L ws io0 fuel,
-  (forall li L w, nth_error langs li = Some L -> ext (Z.of_nat li) (zs w) = enc (lang_search sgn L w)) ->
-  nth_error langs li = Some L -> length ws = 16%nat -> length io0 = 16%nat -> (18 <= fuel)%nat ->
-  exists io, CFuns.polyseed_phrase_decode_explicit fuel ext (map zs ws) (Z.of_nat li) io0 =
-    match decode_words sgn L ws with
-    | Some (Some js) => Some (map Z.of_N js, 0%Z)
-    | _ => Some (io, 2%Z)
-    end.
-Proof. exact tie_phrase_decode_explicit_langs. Qed.
+Theorem C09_code_tie_explicit :
+  forall (sgn : bool) (ext : Z -> list Z -> Z) (OKW : bytes -> Prop) (li : nat) 
+           (L : lang) (ws : list bytes) (io0 : list Z) (fuel : nat),
+         (forall (li0 : nat) (L0 : lang) (w : bytes),
+          OKW w -> nth_error langs li0 = Some L0 -> ext (Z.of_nat li0) (zs w) = enc (lang_search sgn L0 w)) ->
+         nth_error langs li = Some L ->
+         Forall OKW ws ->
+         Datatypes.length ws = 16%nat ->
+         Datatypes.length io0 = 16%nat ->
+         (18 <= fuel)%nat ->
+         exists io : list Z,
+           CFuns.polyseed_phrase_decode_explicit fuel ext (map zs ws) (Z.of_nat li) io0 =
+           match decode_words sgn L ws with
+           | Some (Some js) => Some (map Z.of_N js, 0%Z)
+           | _ => Some (io, 2%Z)
+           end.
+Proof. exact @tie_phrase_decode_explicit_langs. Qed.
 Print Assumptions C09_code_tie_explicit.
 
 (* ---- the tie to the code: src/polyseed.c as TRANSLATED on this run (Gen/CApi.v) ---- *)
 From Coq Require Import String.
-From PS Require Import Base GFDefs PackDefs StoreDefs MiscDefs StrDefs LangDefs ApiDefs SpecDefs SpecApi GFProofs PackProofs StoreProofs RefineProofs CTieBase CTieLang CTiePhrase CTiePhraseEv CTieSplit CTieApi CTieDecode CTieEncode CTieLocals CTieInject CTieCmp CTieSearch CodeTheorems.
+From PS Require Import Base GFDefs PackDefs StoreDefs MiscDefs StrDefs LangDefs ApiDefs SpecDefs SpecApi GFProofs PackProofs StoreProofs RefineProofs CTieBase CTieLang CTiePhrase CTiePhraseEv CTieSplit CTieApi CTieDecode CTieEncode CTieLocals CTieInject CTieCmp CTieSearch CTieClosed CodeTheorems.
 From PS.Gen Require Import Consts PrivConsts Langs.
 From PS.Gen Require CFuns.
 From PS.Gen Require CApi.
@@ -68,11 +83,13 @@ Theorem C09_code_tie_split :
 Proof. exact @tie_str_split. Qed.
 Print Assumptions C09_code_tie_split.
 
-(* polyseed_decode as translated against the mirror step *)
+(* polyseed_decode as translated against the mirror step (lang_search an external function that answers as the mirror search) *)
 Theorem C09_code_tie_api_decode :
-  forall (sgn : bool) (st : state) (fuel : nat) (D : list Z -> list Z * Z) (ext : Z -> list Z -> Z),
+  forall (sgn : bool) (st : state) (fuel : nat) (D : list Z -> list Z * Z) (ext : Z -> list Z -> Z)
+           (OKW : bytes -> Prop),
          (forall (li : nat) (L : lang) (w : bytes),
-          nth_error langs li = Some L -> ext (Z.of_nat li) (zs w) = enc (lang_search sgn L w)) ->
+          OKW w -> nth_error langs li = Some L -> ext (Z.of_nat li) (zs w) = enc (lang_search sgn L w)) ->
+         (forall t : bytes, no_nul t -> (Datatypes.length t + 2 <= fuel)%nat -> OKW t) ->
          (18 <= fuel)%nat ->
          forall (str : bytes) (coin : N) (ok : bool) (lo lo0 gb gf : Z) (gs : list Z) (gc so0 : Z),
          no_nul str ->
@@ -103,9 +120,11 @@ Print Assumptions C09_code_tie_api_decode.
 
 (* polyseed_decode_explicit as translated against the mirror step *)
 Theorem C09_code_tie_api_decode_explicit :
-  forall (sgn : bool) (st : state) (fuel : nat) (D : list Z -> list Z * Z) (ext : Z -> list Z -> Z),
+  forall (sgn : bool) (st : state) (fuel : nat) (D : list Z -> list Z * Z) (ext : Z -> list Z -> Z)
+           (OKW : bytes -> Prop),
          (forall (li : nat) (L : lang) (w : bytes),
-          nth_error langs li = Some L -> ext (Z.of_nat li) (zs w) = enc (lang_search sgn L w)) ->
+          OKW w -> nth_error langs li = Some L -> ext (Z.of_nat li) (zs w) = enc (lang_search sgn L w)) ->
+         (forall t : bytes, no_nul t -> (Datatypes.length t + 2 <= fuel)%nat -> OKW t) ->
          (18 <= fuel)%nat ->
          forall (str : bytes) (coin : N) (li : nat) (L : lang) (ok : bool) (gb gf : Z) 
            (gs : list Z) (gc so0 : Z),
@@ -131,3 +150,78 @@ Theorem C09_code_tie_api_decode_explicit :
              else so = so0 /\ st_heap st' = st_heap st).
 Proof. exact @tie_decode_explicit. Qed.
 Print Assumptions C09_code_tie_api_decode_explicit.
+
+(* the chain closed: polyseed_decode as translated, the search of the language loop being the TRANSLATED polyseed_lang_find_word; left as hypotheses only libc bsearch (contract), the injected normaliser and the allocator *)
+Theorem C09_code_tie_decode_closed :
+  forall (sgn : bool) (fuel : nat) (BS : Z -> list Z -> Z -> Z -> Z),
+         (2050 <= fuel)%nat ->
+         (forall (li : nat) (L : lang) (key : bytes),
+          nth_error langs li = Some L ->
+          no_nul key ->
+          BS (Z.of_nat li) (zs key) 2048%Z
+            (CApi.get_comparer (flag (l_has_prefix L)) (flag (l_has_accents L)) (Z.of_nat li)) =
+          enc (bsearch_loop 13 (fun j : nat => comparer sgn L key (nth j (l_words L) [])) 0 LANG_SIZE_nat)) ->
+         forall (st : state) (D : list Z -> list Z * Z) (str : bytes) (coin : N) (ok : bool) 
+           (lo lo0 gb gf : Z) (gs : list Z) (gc so0 : Z),
+         no_nul str ->
+         coin < 2048 ->
+         (Datatypes.length str + 2 <= fuel)%nat ->
+         let nf := dp_nfkd (st_deps st) in
+         D (zs str) = (zs (fst (nf str)), Z.of_N (snd (nf str))) ->
+         no_nul (fst (nf str)) ->
+         (Datatypes.length (fst (nf str)) + 2 <= fuel)%nat ->
+         let
+         '(st', out0, evs) := step sgn langs st (OpDecode str coin ok) in
+          exists (cevs : list CApi.cev) (lo' b f : Z) (s : list Z) (c so status : Z),
+            CApi.polyseed_decode fuel sgn D (ext_code sgn fuel BS) (alloc_ptr st ok) CFuns.polyseed_mul2_table
+              (Z.of_N (st_reserved st)) (zs str) (Z.of_N coin) lo lo0 gb gf gs gc so0 =
+            Some (cevs, lo', b, f, s, c, so, status) /\
+            evs_of (st_deps st) cevs = evs /\
+            (exists li : nat,
+               out0 =
+               OutStatus (Z.to_N status) (if (status =? 0)%Z then Some (st_next st) else None)
+                 (if (status =? 0)%Z then Some li else None) /\
+               (status = 0%Z -> (lo <> 0%Z -> lo' = Z.of_nat li) /\ (lo = 0%Z -> lo' = lo0))) /\
+            (if (status =? 0)%Z
+             then
+              so = ptr (st_next st) /\
+              (exists d : data, st_heap st' = (st_next st, d) :: st_heap st /\ (b, f, s, c) = zd d)
+             else so = so0 /\ st_heap st' = st_heap st).
+Proof. exact @tie_decode_closed. Qed.
+Print Assumptions C09_code_tie_decode_closed.
+
+(* the same for polyseed_decode_explicit *)
+Theorem C09_code_tie_decode_explicit_closed :
+  forall (sgn : bool) (fuel : nat) (BS : Z -> list Z -> Z -> Z -> Z),
+         (2050 <= fuel)%nat ->
+         (forall (li : nat) (L : lang) (key : bytes),
+          nth_error langs li = Some L ->
+          no_nul key ->
+          BS (Z.of_nat li) (zs key) 2048%Z
+            (CApi.get_comparer (flag (l_has_prefix L)) (flag (l_has_accents L)) (Z.of_nat li)) =
+          enc (bsearch_loop 13 (fun j : nat => comparer sgn L key (nth j (l_words L) [])) 0 LANG_SIZE_nat)) ->
+         forall (st : state) (D : list Z -> list Z * Z) (str : bytes) (coin : N) (li : nat) 
+           (L : lang) (ok : bool) (gb gf : Z) (gs : list Z) (gc so0 : Z),
+         nth_error langs li = Some L ->
+         no_nul str ->
+         coin < 2048 ->
+         (Datatypes.length str + 2 <= fuel)%nat ->
+         let nf := dp_nfkd (st_deps st) in
+         D (zs str) = (zs (fst (nf str)), Z.of_N (snd (nf str))) ->
+         no_nul (fst (nf str)) ->
+         (Datatypes.length (fst (nf str)) + 2 <= fuel)%nat ->
+         let
+         '(st', out0, evs) := step sgn langs st (OpDecodeExplicit str coin li ok) in
+          exists (cevs : list CApi.cev) (b f : Z) (s : list Z) (c so status : Z),
+            CApi.polyseed_decode_explicit fuel sgn D (ext_code sgn fuel BS) (alloc_ptr st ok)
+              CFuns.polyseed_mul2_table (Z.of_N (st_reserved st)) (zs str) (Z.of_N coin) 
+              (Z.of_nat li) gb gf gs gc so0 = Some (cevs, b, f, s, c, so, status) /\
+            evs_of (st_deps st) cevs = evs /\
+            out0 = OutStatus (Z.to_N status) (if (status =? 0)%Z then Some (st_next st) else None) None /\
+            (if (status =? 0)%Z
+             then
+              so = ptr (st_next st) /\
+              (exists d : data, st_heap st' = (st_next st, d) :: st_heap st /\ (b, f, s, c) = zd d)
+             else so = so0 /\ st_heap st' = st_heap st).
+Proof. exact @tie_decode_explicit_closed. Qed.
+Print Assumptions C09_code_tie_decode_explicit_closed.
